@@ -1,5 +1,5 @@
 #!/bin/bash
-# usage: tools/seed_verify.sh <seed dir> <PID> <demo file> <dest dir in tree> <crate> <test name>
+# usage: [DEMO_FLAGS=--release] tools/seed_verify.sh <seed dir> <PID> <demo file> <dest dir in tree> <crate> <test name>
 # Confirms a seeded change independently in a fresh worktree of /repo HEAD:
 #  (1) demo passes on unchanged code, (2) patch applies and the demo fails, (3) the crate's own tests pass with the patch,
 #  (4) ./check PID raises a VIOLATION on the patched tree.  The worktree is removed afterwards.
@@ -10,9 +10,9 @@ git -C /repo worktree remove --force $WT 2>/dev/null; rm -rf $WT; git -C /repo w
 git -C /repo worktree add -q --detach $WT HEAD || exit 9
 export CARGO_TARGET_DIR=$WT/target CARGO_NET_OFFLINE=true
 mkdir -p $WT/$DEST; cp $SD/out/demo/$DEMO $WT/$DEST/
-echo "== [$PID] demo on unchanged code"; (cd $WT && timeout 2400 cargo test --offline -p $CRATE --test $TEST 2>&1 | grep -E "^test result|FAILED|error(\[|:)" | head -5)
+echo "== [$PID] demo on unchanged code"; (cd $WT && timeout 2400 cargo test --offline ${DEMO_FLAGS:-} -p $CRATE --test $TEST 2>&1 | grep -E "^test result|FAILED|error(\[|:)" | head -5)
 echo "== apply patch"; git -C $WT apply $SD/out/patch.diff && echo applied
-echo "== demo on patched code"; (cd $WT && timeout 2400 cargo test --offline -p $CRATE --test $TEST 2>&1 | grep -E "^test result|\.\.\. FAILED" | head -6)
+echo "== demo on patched code"; (cd $WT && timeout 2400 cargo test --offline ${DEMO_FLAGS:-} -p $CRATE --test $TEST 2>&1 | grep -E "^test result|\.\.\. FAILED" | head -6)
 rm -f $WT/$DEST/$DEMO
 echo "== existing tests of $CRATE with the patch"; (cd $WT && timeout 3000 cargo test --offline -p $CRATE --lib --tests 2>&1 | grep -E "^test result|FAILED" | awk '{p+=$4; f+=$6} END {print "passed="p" failed="f}')
 unset CARGO_TARGET_DIR
